@@ -1,6 +1,6 @@
 (* GENERATED from src/config.rs by gen/gen.py - do not edit *)
 From Coq Require Import NArith.
-Open Scope N_scope.
+Local Open Scope N_scope.
 
 Definition INITIAL_FREE_CELLS : N := 256.
 Definition MAX_RECURSION_DEPTH : N := 1024.
